@@ -70,7 +70,7 @@ theorem inv_exec {s : State} (hI : Inv s) {t : Nat} {pc : PC} (ht : s.threads[t]
   | g1 => exact ⟨inv_local hI ht s.sh rfl rfl rfl rfl trivial, trivial⟩
   | g2 o =>
     by_cases h : s.sh.offset = o
-    · rw [exec_eq_of_noret s t _ _ { s.sh with offset := (o + 1) % s.sh.words.length } (.g4 ((o + 1) % s.sh.words.length) 0) none
+    · rw [exec_eq_of_noret s t _ _ { s.sh with offset := nextOffset s.sh.words.length o } (.g4 (nextOffset s.sh.words.length o) 0) none
         (by simp only [tstep, h, ↓reduceIte]) (Or.inl rfl)]
       exact ⟨inv_local hI ht _ rfl rfl rfl rfl trivial, trivial⟩
     · rw [exec_eq_of_noret s t _ _ s.sh .g3 none (by simp only [tstep, h, ↓reduceIte]) (Or.inl rfl)]
